@@ -709,9 +709,10 @@ theorem killFinish_si {rec : Rec} (hrec : RecSI J rec) (u p : Nat) (esc : Bool) 
     by_cases hr : (sendSignalProcess u p 9 true s).1 = true
     · erw [if_neg (by rw [hr]; simp)]
       exact fin _ h1 ((squietW_sendSignalProcess u p 9 true s).pendCount p |>.trans hc)
-    · -- the SIGKILL was refused (EPERM): `kill_process` ends with `AccessDenied`, the flag stays as it is
+    · -- the SIGKILL was refused (EPERM): the flag is cleared (fix 60e14d0), `kill_process` ends with `AccessDenied`
       erw [if_pos (by simpa using hr)]
-      exact deliver_si hrec wt _ _ h1
+      exact deliver_si hrec wt _ _
+        (setObjStopping_false_si p _ h1 ((squietW_sendSignalProcess u p 9 true s).pendCount p |>.trans hc))
   | false =>
     erw [if_neg (by simp)]
     simp only [pure]
